@@ -1,11 +1,932 @@
 package main
 
-import (
-	"encoding/json"
+// End-to-end part of the C02 harness: the REAL proxy (forwarder.NewHTTPProxy, in
+// process), a scripted raw origin (bytes and write boundaries chosen by the
+// generator), a raw client that keeps every byte it receives, and a response
+// modifier (public injection point HTTPProxyConfig.ResponseModifiers) that records
+// the *http.Response the proxy got from its transport.
 
+import (
+	"bufio"
+	"bytes"
+	"compress/gzip"
+	"context"
+	"encoding/json"
+	"errors"
+	"fmt"
+	"io"
+	"net"
+	"net/http"
+	"sort"
+	"strconv"
+	"strings"
+	"sync"
+	"time"
+
+	"github.com/saucelabs/forwarder"
+	"github.com/saucelabs/forwarder/httplog"
+	"github.com/saucelabs/forwarder/log"
+
+	"verifharness/coqfmt"
 	"verifharness/rng"
 )
 
-func runE2E(r *rng.R, thorough bool, ss *shardSet, m *meta, out string) {}
+// ---------------------------------------------------------------- scenario description (JSON = replay format)
+type hfield struct{ K, V string }
 
-func replayE2E(kind string, c json.RawMessage, ss *shardSet, m *meta) {}
+// oresp is what the origin sends for one exchange.
+type oresp struct {
+	Proto    string   // "HTTP/1.1" or "HTTP/1.0"
+	Code     int      //
+	Reason   string   //
+	Fields   []hfield // header fields in order, as sent (framing fields are added from Framing)
+	Framing  string   // "cl" | "chunked" | "close" | "none" (no framing headers, no body: HEAD/204/304 heads)
+	Body     string   // entity body (identity)
+	Chunks   []int    // chunk sizes when Framing == "chunked" (sum == len(Body))
+	Trailers []hfield // trailer fields (declared in Trailer: when DeclareTrailers)
+	Declare  bool     // send "Trailer: k1, k2" in the head
+	HeadTE   bool     // bodiless head that still carries Transfer-Encoding: chunked (HEAD/204/304 replies)
+	HeadCL   int      // bodiless head that carries this Content-Length (-1: none)
+	Gzip     bool     // when the request carries Accept-Encoding: gzip the body is sent gzip-coded with Content-Length
+	Cuts     []int    // the wire bytes are written in pieces cut at these offsets (sorted)
+	GapMs    int      // pause between the pieces (0 = none); used by the timing scenarios
+	KeepOpen bool     // origin keeps its connection open after this response (false: closes when Framing == "close")
+}
+
+type xreq struct {
+	Method  string
+	Proto   string // "HTTP/1.1" | "HTTP/1.0"
+	Conn    string // "" | "close" | "keep-alive"
+	AcceptE string // Accept-Encoding sent by the client ("" = none)
+	Body    string // POST body
+}
+
+type exchJ struct {
+	Req  xreq
+	Resp oresp
+}
+
+type ecaseJ struct {
+	Class string  // input class (key of a finding)
+	Exchs []exchJ //
+	Time  bool    // timing scenario: gaps are slept and delivery times compared
+}
+
+// ---------------------------------------------------------------- origin
+type originSrv struct {
+	l       net.Listener
+	mu      sync.Mutex
+	scripts map[string]*oresp       // path -> response
+	sent    map[string][]time.Time  // path -> time each piece was written
+	seenAE  map[string]string       // path -> Accept-Encoding the origin saw
+}
+
+func (o *originSrv) wire(r *oresp, gz bool) []byte {
+	var sb bytes.Buffer
+	fmt.Fprintf(&sb, "%s %03d %s\r\n", r.Proto, r.Code, r.Reason)
+	body := []byte(r.Body)
+	for _, f := range r.Fields {
+		fmt.Fprintf(&sb, "%s: %s\r\n", f.K, f.V)
+	}
+	if gz && r.Gzip {
+		var zb bytes.Buffer
+		zw := gzip.NewWriter(&zb)
+		zw.Write(body)
+		zw.Close()
+		body = zb.Bytes()
+		sb.WriteString("Content-Encoding: gzip\r\n")
+	}
+	if r.Declare && len(r.Trailers) > 0 {
+		var ks []string
+		for _, t := range r.Trailers {
+			ks = append(ks, t.K)
+		}
+		fmt.Fprintf(&sb, "Trailer: %s\r\n", strings.Join(ks, ", "))
+	}
+	switch r.Framing {
+	case "cl":
+		fmt.Fprintf(&sb, "Content-Length: %d\r\n\r\n", len(body))
+		sb.Write(body)
+	case "chunked":
+		sb.WriteString("Transfer-Encoding: chunked\r\n\r\n")
+		off := 0
+		for _, n := range r.Chunks {
+			fmt.Fprintf(&sb, "%x\r\n", n)
+			sb.Write(body[off : off+n])
+			sb.WriteString("\r\n")
+			off += n
+		}
+		sb.WriteString("0\r\n")
+		for _, t := range r.Trailers {
+			fmt.Fprintf(&sb, "%s: %s\r\n", t.K, t.V)
+		}
+		sb.WriteString("\r\n")
+	case "close":
+		sb.WriteString("\r\n")
+		sb.Write(body)
+	default: // "none": a bodiless head
+		if r.HeadTE {
+			sb.WriteString("Transfer-Encoding: chunked\r\n")
+		}
+		if r.HeadCL >= 0 {
+			fmt.Fprintf(&sb, "Content-Length: %d\r\n", r.HeadCL)
+		}
+		sb.WriteString("\r\n")
+	}
+	return sb.Bytes()
+}
+
+func (o *originSrv) serve(c net.Conn) {
+	defer c.Close()
+	br := bufio.NewReader(c)
+	for {
+		req, err := http.ReadRequest(br)
+		if err != nil {
+			return
+		}
+		io.Copy(io.Discard, req.Body)
+		path := req.URL.Path
+		o.mu.Lock()
+		r := o.scripts[path]
+		o.seenAE[path] = req.Header.Get("Accept-Encoding")
+		o.mu.Unlock()
+		if r == nil {
+			c.Write([]byte("HTTP/1.1 500 no script\r\nContent-Length: 0\r\n\r\n"))
+			continue
+		}
+		data := o.wire(r, strings.Contains(req.Header.Get("Accept-Encoding"), "gzip"))
+		prev := 0
+		var times []time.Time
+		cuts := append(append([]int(nil), r.Cuts...), len(data))
+		for _, cut := range cuts {
+			if cut <= prev || cut > len(data) {
+				continue
+			}
+			if prev > 0 && r.GapMs > 0 {
+				time.Sleep(time.Duration(r.GapMs) * time.Millisecond)
+			}
+			times = append(times, time.Now())
+			if _, err := c.Write(data[prev:cut]); err != nil {
+				return
+			}
+			prev = cut
+		}
+		o.mu.Lock()
+		o.sent[path] = times
+		o.mu.Unlock()
+		if r.Framing == "close" || !r.KeepOpen {
+			return
+		}
+	}
+}
+
+func newOrigin() *originSrv {
+	l, err := net.Listen("tcp", "127.0.0.1:0")
+	if err != nil {
+		panic(err)
+	}
+	o := &originSrv{l: l, scripts: map[string]*oresp{}, sent: map[string][]time.Time{}, seenAE: map[string]string{}}
+	go func() {
+		for {
+			c, err := l.Accept()
+			if err != nil {
+				return
+			}
+			go o.serve(c)
+		}
+	}()
+	return o
+}
+
+// ---------------------------------------------------------------- proxy with a recording response modifier
+type snapshot struct {
+	Major, Minor int
+	Code         int
+	Status       string
+	Hdr          http.Header
+	CL           int64
+	TE           []string
+	TrailerKeys  []string
+	Close        bool
+	Uncompressed bool
+}
+
+type proxyRig struct {
+	hp    *forwarder.HTTPProxy
+	addr  string
+	mu    sync.Mutex
+	snaps map[string]snapshot
+	stop  context.CancelFunc
+}
+
+func newProxyRig() *proxyRig {
+	rig := &proxyRig{snaps: map[string]snapshot{}}
+	cfg := forwarder.DefaultHTTPProxyConfig()
+	cfg.Address = "127.0.0.1:0"
+	cfg.ProxyLocalhost = forwarder.AllowProxyLocalhost
+	cfg.LogHTTPMode = httplog.None
+	cfg.ResponseModifiers = []forwarder.ResponseModifier{forwarder.ResponseModifierFunc(func(res *http.Response) error {
+		if res.Request == nil || res.Request.URL == nil {
+			return nil
+		}
+		s := snapshot{Major: res.ProtoMajor, Minor: res.ProtoMinor, Code: res.StatusCode, Status: res.Status, Hdr: res.Header.Clone(),
+			CL: res.ContentLength, TE: append([]string(nil), res.TransferEncoding...), Close: res.Close, Uncompressed: res.Uncompressed}
+		for k := range res.Trailer {
+			s.TrailerKeys = append(s.TrailerKeys, k)
+		}
+		sort.Strings(s.TrailerKeys)
+		rig.mu.Lock()
+		rig.snaps[res.Request.URL.Path] = s
+		rig.mu.Unlock()
+		return nil
+	})}
+	tr, err := forwarder.NewHTTPTransport(forwarder.DefaultHTTPTransportConfig())
+	if err != nil {
+		panic(err)
+	}
+	hp, err := forwarder.NewHTTPProxy(cfg, nil, nil, tr, log.NopLogger, nil)
+	if err != nil {
+		panic(err)
+	}
+	ctx, cancel := context.WithCancel(context.Background())
+	rig.stop = cancel
+	go hp.Run(ctx)
+	addrs, _ := hp.Addr()
+	rig.hp, rig.addr = hp, addrs[0]
+	return rig
+}
+
+// ---------------------------------------------------------------- independent response parser of the raw client (RFC 7230 3.3.3)
+type parsed struct {
+	Code     int
+	HeadLen  int
+	Fields   []hfield
+	Chunked  bool
+	Chunks   []int // sizes of the chunks seen
+	Body     []byte
+	Trailers []hfield
+	ToClose  bool // delimited by the end of the connection
+}
+
+var errIncomplete = errors.New("incomplete")
+
+func cutLine(b []byte) (line, rest []byte, ok bool) {
+	i := bytes.Index(b, []byte("\r\n"))
+	if i < 0 {
+		return nil, nil, false
+	}
+	return b[:i], b[i+2:], true
+}
+
+func parseFieldsGo(b []byte) (fs []hfield, rest []byte, err error) {
+	for {
+		line, r, ok := cutLine(b)
+		if !ok {
+			return nil, nil, errIncomplete
+		}
+		b = r
+		if len(line) == 0 {
+			return fs, b, nil
+		}
+		k, v, ok := bytes.Cut(line, []byte(":"))
+		if !ok {
+			return nil, nil, fmt.Errorf("field line without colon: %q", line)
+		}
+		fs = append(fs, hfield{string(k), strings.Trim(string(v), " \t")})
+	}
+}
+
+func fieldVals(fs []hfield, name string) []string {
+	var out []string
+	for _, f := range fs {
+		if strings.EqualFold(f.K, name) {
+			out = append(out, f.V)
+		}
+	}
+	return out
+}
+
+// parseResp parses one response at the start of b. eof: no more bytes will come.
+func parseResp(v11 bool, meth string, b []byte, eof bool) (p parsed, n int, err error) {
+	total := len(b)
+	line, rest, ok := cutLine(b)
+	if !ok {
+		return p, 0, errIncomplete
+	}
+	if len(line) < 12 || !bytes.HasPrefix(line, []byte("HTTP/")) {
+		return p, 0, fmt.Errorf("bad status line %q", line)
+	}
+	code, cerr := strconv.Atoi(string(line[9:12]))
+	if cerr != nil {
+		return p, 0, fmt.Errorf("bad status code in %q", line)
+	}
+	p.Code = code
+	fs, rest, err := parseFieldsGo(rest)
+	if err != nil {
+		return p, 0, err
+	}
+	p.Fields = fs
+	p.HeadLen = total - len(rest)
+	if meth == "HEAD" || code/100 == 1 || code == 204 || code == 304 {
+		return p, p.HeadLen, nil
+	}
+	tes := fieldVals(fs, "Transfer-Encoding")
+	if v11 && len(tes) > 0 {
+		last := tes[len(tes)-1]
+		toks := strings.Split(last, ",")
+		if strings.EqualFold(strings.TrimSpace(toks[len(toks)-1]), "chunked") {
+			p.Chunked = true
+			for {
+				l, r, ok := cutLine(rest)
+				if !ok {
+					return p, 0, errIncomplete
+				}
+				szs, _, _ := strings.Cut(string(l), ";")
+				sz, perr := strconv.ParseUint(strings.TrimSpace(szs), 16, 32)
+				if perr != nil {
+					return p, 0, fmt.Errorf("bad chunk size %q", l)
+				}
+				rest = r
+				if sz == 0 {
+					tr, r2, terr := parseFieldsGo(rest)
+					if terr != nil {
+						return p, 0, terr
+					}
+					p.Trailers = tr
+					return p, total - len(r2), nil
+				}
+				if uint64(len(rest)) < sz+2 {
+					return p, 0, errIncomplete
+				}
+				if rest[sz] != '\r' || rest[sz+1] != '\n' {
+					return p, 0, fmt.Errorf("chunk not followed by CRLF")
+				}
+				p.Body = append(p.Body, rest[:sz]...)
+				p.Chunks = append(p.Chunks, int(sz))
+				rest = rest[sz+2:]
+			}
+		}
+		p.ToClose = true
+	} else if cls := fieldVals(fs, "Content-Length"); len(cls) > 0 {
+		n, perr := strconv.ParseUint(cls[0], 10, 63)
+		if perr != nil {
+			return p, 0, fmt.Errorf("bad content-length %q", cls[0])
+		}
+		if uint64(len(rest)) < n {
+			return p, 0, errIncomplete
+		}
+		p.Body = rest[:n]
+		return p, p.HeadLen + int(n), nil
+	} else {
+		p.ToClose = true
+	}
+	if !eof {
+		return p, 0, errIncomplete
+	}
+	p.Body = rest
+	return p, total, nil
+}
+
+// ---------------------------------------------------------------- the raw client
+type arrival struct {
+	N int // cumulative number of bytes received
+	T time.Time
+}
+
+type connResult struct {
+	Stream    []byte
+	Done      int  // exchanges whose response was parsed completely
+	Closed    bool // the proxy closed the connection
+	Parsed    []parsed
+	Ends      []int // end offset of each parsed response in Stream
+	Arrivals  []arrival
+	Err       string
+	TimedOut  bool
+}
+
+func renderReq(x xreq, origin, path string) []byte {
+	var sb bytes.Buffer
+	fmt.Fprintf(&sb, "%s http://%s%s %s\r\nHost: %s\r\n", x.Method, origin, path, x.Proto, origin)
+	if x.Conn != "" {
+		fmt.Fprintf(&sb, "Connection: %s\r\n", x.Conn)
+	}
+	if x.AcceptE != "" {
+		fmt.Fprintf(&sb, "Accept-Encoding: %s\r\n", x.AcceptE)
+	}
+	if x.Method == "POST" {
+		fmt.Fprintf(&sb, "Content-Length: %d\r\n", len(x.Body))
+	}
+	sb.WriteString("\r\n")
+	if x.Method == "POST" {
+		sb.WriteString(x.Body)
+	}
+	return sb.Bytes()
+}
+
+func runConn(proxyAddr, origin string, paths []string, c ecaseJ, wait time.Duration) connResult {
+	var res connResult
+	conn, err := net.Dial("tcp", proxyAddr)
+	if err != nil {
+		res.Err = err.Error()
+		return res
+	}
+	defer conn.Close()
+	buf := make([]byte, 64*1024)
+	off := 0
+	eof := false
+	read := func(d time.Duration) bool { // false: nothing more arrived
+		conn.SetReadDeadline(time.Now().Add(d))
+		n, err := conn.Read(buf)
+		if n > 0 {
+			res.Stream = append(res.Stream, buf[:n]...)
+			res.Arrivals = append(res.Arrivals, arrival{len(res.Stream), time.Now()})
+		}
+		if err != nil {
+			if errors.Is(err, io.EOF) || !isTimeout(err) {
+				eof = true
+			}
+			return n > 0
+		}
+		return true
+	}
+	for i, x := range c.Exchs {
+		v11 := x.Req.Proto == "HTTP/1.1"
+		if _, err := conn.Write(renderReq(x.Req, origin, paths[i])); err != nil {
+			eof = true
+			break
+		}
+		complete := false
+		deadline := time.Now().Add(wait)
+		for {
+			p, n, perr := parseResp(v11, x.Req.Method, res.Stream[off:], eof)
+			if perr == nil {
+				res.Parsed = append(res.Parsed, p)
+				off += n
+				res.Ends = append(res.Ends, off)
+				res.Done++
+				complete = true
+				break
+			}
+			if perr != errIncomplete {
+				res.Err = perr.Error()
+				break
+			}
+			if eof || time.Now().After(deadline) {
+				break
+			}
+			read(time.Until(deadline))
+		}
+		if !complete {
+			if !eof {
+				res.TimedOut = true
+			}
+			break
+		}
+		if eof {
+			break
+		}
+	}
+	// anything that still arrives (bytes that belong to no response, or the close)
+	if !eof {
+		for read(120 * time.Millisecond) {
+		}
+	}
+	res.Closed = eof
+	return res
+}
+
+func isTimeout(err error) bool {
+	var ne net.Error
+	return errors.As(err, &ne) && ne.Timeout()
+}
+
+// ---------------------------------------------------------------- generators
+var e2eReasons = []string{"OK", "OK", "Custom Reason", "Fine  Thanks", "Not Found", "X"}
+var e2eHdrs = []hfield{{"Content-Type", "text/plain"}, {"Content-Type", "text/event-stream"}, {"X-A", "1"}, {"X-A", "2"}, {"x-lower", "v"},
+	{"Set-Cookie", "a=1"}, {"Set-Cookie", "b=2"}, {"Cache-Control", "no-cache"}, {"Etag", "\"x\""}, {"X-Empty", ""},
+	{"Vary", "Accept-Encoding"}, {"Keep-Alive", "timeout=5"}, {"Connection", "X-Hop"}, {"X-Hop", "h"}, {"Proxy-Authenticate", "Basic realm=o"},
+	{"Www-Authenticate", "Basic realm=o"}, {"X-Long", strings.Repeat("v", 300)}}
+
+func genBody(r *rng.R) string {
+	switch r.Intn(12) {
+	case 0:
+		return ""
+	case 1:
+		return strings.Repeat("a", 4095+r.Intn(3)) // around bufio's 4 KiB
+	case 2:
+		return "[" + strings.Repeat("b", 32766+r.Intn(4)) + "]" // around the 32 KiB copy buffer
+	case 3:
+		return "line1\r\nline2\r\n\r\n"
+	case 4:
+		return "data: 1\n\ndata: 2\n\n"
+	case 5:
+		return "0\r\n\r\n" // looks like a last chunk
+	default:
+		n := 1 + r.Intn(40)
+		bs := make([]byte, n)
+		for i := range bs {
+			bs[i] = "abcdefghijklmnopqrstuvwxyz\r\n 0123456789"[r.Intn(39)]
+		}
+		return string(bs)
+	}
+}
+
+func partition(r *rng.R, n int) []int {
+	if n == 0 {
+		return nil
+	}
+	var out []int
+	left := n
+	k := 1 + r.Intn(4)
+	for i := 0; i < k-1 && left > 1; i++ {
+		c := 1 + r.Intn(left-1)
+		out = append(out, c)
+		left -= c
+	}
+	return append(out, left)
+}
+
+func genFields(r *rng.R) []hfield {
+	var fs []hfield
+	n := r.Intn(5)
+	for i := 0; i < n; i++ {
+		fs = append(fs, e2eHdrs[r.Intn(len(e2eHdrs))])
+	}
+	return fs
+}
+
+func genResp(r *rng.R, meth string) oresp {
+	o := oresp{Proto: "HTTP/1.1", Code: []int{200, 200, 200, 404, 500, 201, 203, 206, 301, 410}[r.Intn(10)], Reason: r.Pick(e2eReasons),
+		Fields: genFields(r), HeadCL: -1, KeepOpen: true}
+	if r.Chance(1, 10) {
+		o.Proto = "HTTP/1.0"
+	}
+	bodiless := meth == "HEAD"
+	if r.Chance(1, 6) {
+		o.Code = []int{204, 304}[r.Intn(2)]
+		bodiless = true
+	}
+	if bodiless {
+		o.Framing = "none"
+		switch r.Intn(4) {
+		case 0:
+			o.HeadCL = r.Intn(100)
+		case 1:
+			o.HeadTE = true
+			if r.Chance(1, 2) {
+				o.Declare, o.Trailers = true, []hfield{{"X-T", "tv"}}
+				if r.Chance(1, 2) {
+					o.Trailers = append(o.Trailers, hfield{"Expires", "0"})
+				}
+			}
+		}
+		if o.Proto == "HTTP/1.0" {
+			o.HeadTE, o.Declare, o.Trailers = false, false, nil
+		}
+	} else {
+		o.Body = genBody(r)
+		switch r.Intn(5) {
+		case 0, 1:
+			o.Framing = "cl"
+		case 2, 3:
+			o.Framing = "chunked"
+			o.Chunks = partition(r, len(o.Body))
+			if r.Chance(1, 3) {
+				o.Declare, o.Trailers = true, []hfield{{"X-T", "tv"}}
+				if r.Chance(1, 2) {
+					o.Trailers = append(o.Trailers, hfield{"X-Checksum", "abc"})
+				}
+			}
+		default:
+			o.Framing = "close"
+		}
+		if o.Proto == "HTTP/1.0" && o.Framing == "chunked" {
+			o.Framing, o.Chunks, o.Declare, o.Trailers = "close", nil, false, nil
+		}
+		if o.Framing == "cl" && r.Chance(1, 3) {
+			o.Gzip = true
+		}
+	}
+	// cut the wire bytes: sometimes in the middle of a CRLF, sometimes at random
+	if r.Chance(1, 2) {
+		w := (&originSrv{}).wire(&o, false)
+		var cuts []int
+		for i := 0; i+1 < len(w); i++ {
+			if w[i] == '\r' && w[i+1] == '\n' && r.Chance(1, 6) {
+				cuts = append(cuts, i+1)
+			}
+		}
+		for k := r.Intn(3); k > 0 && len(w) > 1; k-- {
+			cuts = append(cuts, 1+r.Intn(len(w)-1))
+		}
+		sort.Ints(cuts)
+		if !o.Gzip {
+			o.Cuts = cuts
+		}
+	}
+	return o
+}
+
+func genReq(r *rng.R, last bool) xreq {
+	x := xreq{Method: []string{"GET", "GET", "HEAD", "POST"}[r.Intn(4)], Proto: "HTTP/1.1"}
+	if x.Method == "POST" {
+		x.Body = "q=1"
+	}
+	if r.Chance(1, 2) {
+		x.AcceptE = []string{"gzip", "identity", "gzip, br"}[r.Intn(3)]
+	}
+	if last && r.Chance(1, 4) {
+		x.Conn = "close"
+	}
+	return x
+}
+
+func genCase(r *rng.R) ecaseJ {
+	n := 2 + r.Intn(4)
+	c := ecaseJ{Class: "generated"}
+	http10 := r.Chance(1, 8)
+	for i := 0; i < n; i++ {
+		x := genReq(r, i == n-1)
+		if http10 {
+			x.Proto = "HTTP/1.0"
+			x.Conn = "keep-alive"
+			if i == n-1 && r.Chance(1, 2) {
+				x.Conn = ""
+			}
+		}
+		c.Exchs = append(c.Exchs, exchJ{x, genResp(r, x.Method)})
+	}
+	return c
+}
+
+func get(p string) xreq { return xreq{Method: "GET", Proto: p} }
+
+// corpus: the smallest earlier failures and the scenarios DESIGN.md names; they always run
+func corpus() []ecaseJ {
+	plain := oresp{Proto: "HTTP/1.1", Code: 200, Reason: "OK", Framing: "cl", Body: "ok", HeadCL: -1, KeepOpen: true}
+	headTr := oresp{Proto: "HTTP/1.1", Code: 200, Reason: "OK", Framing: "none", HeadTE: true, Declare: true, Trailers: []hfield{{"X-T", "v"}}, HeadCL: -1, KeepOpen: true}
+	nm := headTr
+	nm.Code, nm.Reason = 304, "Not Modified"
+	nc := headTr
+	nc.Code, nc.Reason = 204, "No Content"
+	gz := oresp{Proto: "HTTP/1.1", Code: 200, Reason: "OK", Framing: "cl", Body: "hello gzip world", Gzip: true, HeadCL: -1, KeepOpen: true}
+	ch := oresp{Proto: "HTTP/1.1", Code: 200, Reason: "OK", Framing: "chunked", Body: "hello", Chunks: []int{5}, HeadCL: -1, KeepOpen: true}
+	chTr := oresp{Proto: "HTTP/1.1", Code: 200, Reason: "OK", Framing: "chunked", Body: "hello world", Chunks: []int{5, 6}, Declare: true,
+		Trailers: []hfield{{"X-T", "v"}}, HeadCL: -1, KeepOpen: true}
+	h10 := xreq{Method: "GET", Proto: "HTTP/1.0", Conn: "keep-alive"}
+	h10c := xreq{Method: "GET", Proto: "HTTP/1.0"}
+	return []ecaseJ{
+		{Class: "head-reply-with-declared-trailers", Exchs: []exchJ{{xreq{Method: "HEAD", Proto: "HTTP/1.1"}, headTr}, {get("HTTP/1.1"), plain}}},
+		{Class: "304-reply-with-declared-trailers", Exchs: []exchJ{{get("HTTP/1.1"), nm}, {get("HTTP/1.1"), plain}}},
+		{Class: "204-reply-with-declared-trailers", Exchs: []exchJ{{get("HTTP/1.1"), nc}, {get("HTTP/1.1"), plain}}},
+		{Class: "gzip-solicited-by-proxy", Exchs: []exchJ{{get("HTTP/1.1"), gz}, {get("HTTP/1.1"), plain}}},
+		{Class: "gzip-solicited-by-client", Exchs: []exchJ{{xreq{Method: "GET", Proto: "HTTP/1.1", AcceptE: "gzip"}, gz}, {get("HTTP/1.1"), plain}}},
+		{Class: "http10-client-chunked-origin", Exchs: []exchJ{{h10, ch}, {h10, plain}}},
+		{Class: "http10-client-chunked-origin", Exchs: []exchJ{{h10c, ch}}},
+		{Class: "chunked-with-trailers", Exchs: []exchJ{{get("HTTP/1.1"), chTr}, {get("HTTP/1.1"), plain}, {xreq{Method: "HEAD", Proto: "HTTP/1.1"}, plain}, {get("HTTP/1.1"), ch}}},
+	}
+}
+
+// ---------------------------------------------------------------- rendering of an e2e case for Coq
+func hdrOf(fs []hfield) http.Header {
+	h := http.Header{}
+	for _, f := range fs {
+		k := http.CanonicalHeaderKey(f.K)
+		h[k] = append(h[k], f.V)
+	}
+	return h
+}
+
+var hopNames = map[string]bool{"connection": true, "keep-alive": true, "proxy-authenticate": true, "proxy-authorization": true,
+	"proxy-connection": true, "te": true, "trailer": true, "transfer-encoding": true, "upgrade": true,
+	// framing and coding fields may legitimately change when the proxy re-frames or undoes a gzip it solicited
+	"content-length": true, "content-encoding": true}
+
+// expected observation at the client, derived from the origin script only
+func expected(x exchJ, sawGzip bool) string {
+	o := x.Resp
+	hop := map[string]bool{}
+	for k := range hopNames {
+		hop[k] = true
+	}
+	for _, f := range o.Fields {
+		if strings.EqualFold(f.K, "Connection") {
+			for _, t := range strings.Split(f.V, ",") {
+				hop[strings.ToLower(strings.TrimSpace(t))] = true
+			}
+		}
+	}
+	want := map[string][]string{}
+	var order []string
+	for _, f := range o.Fields {
+		lk := strings.ToLower(f.K)
+		if hop[lk] {
+			continue
+		}
+		if _, ok := want[lk]; !ok {
+			order = append(order, lk)
+		}
+		want[lk] = append(want[lk], strings.Trim(f.V, " \t"))
+	}
+	var fparts []string
+	for _, k := range order {
+		fparts = append(fparts, "("+coqfmt.Str(k)+", "+coqfmt.StrList(want[k])+")")
+	}
+	body := o.Body
+	clientAskedGzip := strings.Contains(x.Req.AcceptE, "gzip")
+	if o.Gzip && sawGzip && clientAskedGzip {
+		var zb bytes.Buffer
+		zw := gzip.NewWriter(&zb)
+		zw.Write([]byte(o.Body))
+		zw.Close()
+		body = zb.String()
+	}
+	if x.Req.Method == "HEAD" || o.Framing == "none" {
+		body = ""
+	}
+	var tparts []string
+	if o.Framing == "chunked" && o.Declare && x.Req.Proto == "HTTP/1.1" {
+		tw := map[string][]string{}
+		var tord []string
+		for _, t := range o.Trailers {
+			lk := strings.ToLower(t.K)
+			if _, ok := tw[lk]; !ok {
+				tord = append(tord, lk)
+			}
+			tw[lk] = append(tw[lk], t.V)
+		}
+		for _, k := range tord {
+			tparts = append(tparts, "("+coqfmt.Str(k)+", "+coqfmt.StrList(tw[k])+")")
+		}
+	}
+	return fmt.Sprintf("{| x_code := %d; x_fields := %s; x_body := %s; x_trailers := %s |}", o.Code,
+		coqfmt.List("(list N * list (list N))", fparts), cstr(body), coqfmt.List("(list N * list (list N))", tparts))
+}
+
+func reqClose(x xreq) bool {
+	if strings.EqualFold(x.Conn, "close") {
+		return true
+	}
+	if x.Proto == "HTTP/1.0" && !strings.EqualFold(x.Conn, "keep-alive") {
+		return true
+	}
+	return false
+}
+
+func renderE2E(c ecaseJ, res connResult, snaps []snapshot, sawAE []string) string {
+	var parts []string
+	for i := 0; i < res.Done && i < len(c.Exchs); i++ {
+		x := c.Exchs[i]
+		s := snaps[i]
+		p := res.Parsed[i]
+		// body reads for the model: the chunks the client saw, or the whole body
+		var reads []string
+		if p.Chunked {
+			off := 0
+			for _, n := range p.Chunks {
+				reads = append(reads, string(p.Body[off:off+n]))
+				off += n
+			}
+		} else if len(p.Body) > 0 {
+			reads = []string{string(p.Body)}
+		}
+		tr := http.Header{}
+		for _, k := range s.TrailerKeys {
+			tr[k] = nil
+		}
+		for _, t := range x.Resp.Trailers {
+			k := http.CanonicalHeaderKey(t.K)
+			if _, ok := tr[k]; ok && x.Resp.Framing == "chunked" {
+				tr[k] = append(tr[k], t.V)
+			}
+		}
+		// order of the trailer keys in a "Trailer: a, b" line written by the header-only writer
+		var order []string
+		for _, v := range fieldVals(p.Fields, "Trailer") {
+			for _, k := range strings.Split(v, ",") {
+				order = append(order, strings.TrimSpace(k))
+			}
+		}
+		rj := respJ{Major: s.Major, Minor: s.Minor, Code: s.Code, Status: s.Status, Hdr: s.Hdr, CL: s.CL,
+			Chunked: len(s.TE) > 0 && s.TE[0] == "chunked", Trailer: tr, Body: reads, Close: s.Close, Uncompressed: s.Uncompressed}
+		maj, min := 1, 1
+		if x.Req.Proto == "HTTP/1.0" {
+			min = 0
+		}
+		q := fmt.Sprintf("(mkReq %s %d %d %s)", coqfmt.Str(x.Req.Method), maj, min, coqfmt.Bool(reqClose(x.Req)))
+		parts = append(parts, fmt.Sprintf("{| e_req := %s; e_snap := %s; e_order := %s; e_exp := %s |}", q, coqResp(rj),
+			coqfmt.StrList(order), expected(x, strings.Contains(sawAE[i], "gzip"))))
+	}
+	v11 := c.Exchs[0].Req.Proto == "HTTP/1.1"
+	return fmt.Sprintf("{| e_v11 := %s; e_want := %d; e_exchs := %s; e_stream := %s; e_closed := %s |}", coqfmt.Bool(v11), len(c.Exchs),
+		coqfmt.List("exch", parts), cstr(string(res.Stream)), coqfmt.Bool(res.Closed))
+}
+
+// ---------------------------------------------------------------- driver
+type e2eOut struct {
+	Case ecaseJ `json:"case"`
+	Done int    `json:"done"`
+	Err  string `json:"err,omitempty"`
+}
+
+func runCases(cases []ecaseJ, wait time.Duration) (rendered []string, outs []any, stats map[string]int) {
+	org := newOrigin()
+	defer org.l.Close()
+	rig := newProxyRig()
+	defer rig.stop()
+	origin := org.l.Addr().String()
+	stats = map[string]int{}
+	rendered = make([]string, len(cases))
+	outs = make([]any, len(cases))
+	var wg sync.WaitGroup
+	sem := make(chan struct{}, 24)
+	var smu sync.Mutex
+	for ci := range cases {
+		wg.Add(1)
+		sem <- struct{}{}
+		go func(ci int) {
+			defer wg.Done()
+			defer func() { <-sem }()
+			c := cases[ci]
+			paths := make([]string, len(c.Exchs))
+			org.mu.Lock()
+			for i := range c.Exchs {
+				paths[i] = fmt.Sprintf("/c%d/x%d", ci, i)
+				r := c.Exchs[i].Resp
+				org.scripts[paths[i]] = &r
+			}
+			org.mu.Unlock()
+			res := runConn(rig.addr, origin, paths, c, wait)
+			snaps := make([]snapshot, len(paths))
+			sawAE := make([]string, len(paths))
+			rig.mu.Lock()
+			org.mu.Lock()
+			for i, p := range paths {
+				snaps[i] = rig.snaps[p]
+				sawAE[i] = org.seenAE[p]
+			}
+			org.mu.Unlock()
+			rig.mu.Unlock()
+			rendered[ci] = renderE2E(c, res, snaps, sawAE)
+			outs[ci] = e2eOut{c, res.Done, res.Err}
+			smu.Lock()
+			stats["connections"]++
+			stats["exchanges_completed"] += res.Done
+			stats["exchanges_requested"] += len(c.Exchs)
+			if res.Closed {
+				stats["closed_by_proxy"]++
+			}
+			if res.TimedOut {
+				stats["timed_out_waiting_for_response"]++
+			}
+			for i := 0; i < res.Done; i++ {
+				stats["framing_"+c.Exchs[i].Resp.Framing]++
+				stats["method_"+c.Exchs[i].Req.Method]++
+				if i > 0 {
+					prev := c.Exchs[i-1]
+					if prev.Req.Method == "HEAD" || prev.Resp.Framing == "none" || prev.Resp.Framing == "chunked" {
+						stats["kth_after_head_204_304_or_chunked"]++
+					}
+				}
+			}
+			smu.Unlock()
+		}(ci)
+	}
+	wg.Wait()
+	return
+}
+
+func runE2E(r *rng.R, thorough bool, ss *shardSet, m *meta, out string) {
+	cases := corpus()
+	n := 260
+	if thorough {
+		n = 3000
+	}
+	for i := 0; i < n; i++ {
+		cases = append(cases, genCase(r))
+	}
+	rendered, outs, stats := runCases(cases, 700*time.Millisecond)
+	m.Counts["ecases"] = len(rendered)
+	m.E2E["stats"] = stats
+	old := ss.shardSize
+	ss.shardSize = 40
+	ss.write("ecases", "ecase", "ecase_model_ok", "ecase_prop_ok", rendered)
+	ss.shardSize = old
+	writeJSONL(out, "ecases.jsonl", outs)
+	m.Samples["ecase"] = outs[len(outs)-1]
+}
+
+func replayE2E(kind string, raw json.RawMessage, ss *shardSet, m *meta) {
+	if kind != "ecases" {
+		return
+	}
+	var c ecaseJ
+	if err := json.Unmarshal(raw, &c); err != nil {
+		panic(err)
+	}
+	rendered, outs, stats := runCases([]ecaseJ{c}, 700*time.Millisecond)
+	m.Counts["ecases"] = 1
+	m.E2E["stats"] = stats
+	ss.write("ecases", "ecase", "ecase_model_ok", "ecase_prop_ok", rendered)
+	writeJSONL(ss.dir, "ecases.jsonl", outs)
+}
